@@ -25,6 +25,7 @@ def specs(tier):
         J('deposed3-b24:H1R1', 'deposed', dict(n=3, batch_bytes=SMALLB), dict(H=1, R=1), dict(tail=3, newk=4)),
         J('deposed2x3-b24:H1R1', 'deposed_twice', dict(n=3, batch_bytes=SMALLB), dict(H=1, R=1)),
         J('deposed2x3:H1R1', 'deposed_twice', dict(n=3), dict(H=1, R=1)),
+        J('deposed3-blackhole-fb:F1E1', 'deposed', dict(n=3, fallback=0.035), dict(F=1, E=1), dict(tail=3, newk=1, black=True)),
         J('pending3-b24:H1', 'pending', dict(n=3, batch_bytes=SMALLB), dict(H=1), dict(unrep=4)),
         J('pipeline3-b24:H1R1', 'reconnect_pipeline', dict(n=3, batch_bytes=SMALLB), dict(H=1, R=1), dict(unrep=4)),
         J('forwarded3:H1X1', 'forwarded', dict(n=3), dict(H=1, X=1)),
